@@ -24,6 +24,7 @@ import (
 	"github.com/holiman/uint256"
 	"pgregory.net/rapid"
 	"verif.local/kit/refstate"
+	vs "verif.local/kit/stat"
 )
 
 // ---- rule sets -----------------------------------------------------------------
@@ -175,6 +176,7 @@ func (d *vDB) Close() {
 // vWorld couples a real StateDB with the model.
 type vWorld struct {
 	rt   *rapid.T
+	st   *vs.S
 	rs   vRuleSet
 	sdb  *StateDB
 	m    *refstate.State
@@ -210,6 +212,9 @@ func (w *vWorld) logf(format string, a ...any) {
 }
 
 func (w *vWorld) fail(format string, a ...any) {
+	if w.st != nil {
+		w.st.MarkFailed() // rapid re-runs the property while shrinking: stop counting
+	}
 	tr := w.trace
 	if len(tr) > 120 {
 		tr = tr[len(tr)-120:]
@@ -817,6 +822,27 @@ func vActSelfDestruct(w *vWorld) {
 	w.after(&a)
 }
 
+// vActRipemdTouchRevert is the mainnet block-1714175 pattern: RIPEMD-160 is touched
+// inside a frame that is reverted; the touch nevertheless survives to Finalise.
+func vActRipemdTouchRevert(w *vWorld) {
+	w.snapshot()
+	live := w.m.LiveSnapshots()
+	id := live[len(live)-1]
+	if acc := w.m.Account(ra(ripemd)); acc == nil || acc.Empty() {
+		w.ripemdSticky = true
+	}
+	g := w.sdb.AddBalance(ripemd, uint256.NewInt(0), tracing.BalanceChangeTouchAccount)
+	e := w.m.AddBalance(ra(ripemd), new(big.Int))
+	if g.ToBig().Cmp(e) != 0 {
+		w.fail("AddBalance returned previous balance %v, model %v", &g, e)
+	}
+	w.sdb.RevertToSnapshot(id)
+	w.m.RevertToSnapshot(id)
+	w.logf("RipemdTouch+Revert")
+	a := ripemd
+	w.after(&a)
+}
+
 func (w *vWorld) snapshot() {
 	id := w.sdb.Snapshot()
 	w.m.Snapshot(id)
@@ -922,6 +948,7 @@ var vActions = []vAction{
 	{"SelfDestruct", 8, vActSelfDestruct},
 	{"Snapshot", 9, vActSnapshot},
 	{"Revert", 7, vActRevert},
+	{"RipemdTouchRevert", 2, vActRipemdTouchRevert},
 	{"Read", 3, vActRead},
 	{"Copy", 2, vActCopy},
 	{"Finalise", 5, vActFinalise},
